@@ -7,16 +7,22 @@ namespace Typstyle
 open Twin
 
 /-- The children after the left operand: operators, comments, white space, and — once an operator
-has been seen — operands.  (`not in`, two tokens, is not covered.) -/
-def binRestOK : Bool → List ANode → Bool
-  | _, [] => true
-  | seen, c :: cs =>
-    ((binOpOfKind c.kind).isSome || isCommentKind c.kind || c.kind == .space || (isExpr c && seen)) &&
-      binRestOK (seen || (binOpOfKind c.kind).isSome) cs
+has been seen — operands.  `pend`: a `not` was seen and its `in` is still to come (only white space and
+comments may stand between the two). -/
+def binRestOK : Bool → Bool → List ANode → Bool
+  | _, p, [] => !p
+  | seen, false, c :: cs =>
+    if c.kind == .not_ then binRestOK seen true cs
+    else ((binOpOfKind c.kind).isSome || isCommentKind c.kind || c.kind == .space || (isExpr c && seen)) &&
+      binRestOK (seen || (binOpOfKind c.kind).isSome) false cs
+  | seen, true, c :: cs =>
+    if c.kind == .in_ then binRestOK true false cs
+    else (isCommentKind c.kind || c.kind == .space) && binRestOK seen true cs
 
 def binChildrenOK (cs : List ANode) : Bool :=
   match cs with
-  | lhs :: rest => isExpr lhs && !(lhs.kind == .binary && lhs.attrs.disabled) && binRestOK false rest
+  | lhs :: rest => isExpr lhs && !(lhs.kind == .binary && lhs.attrs.disabled) && binRestOK false false rest &&
+      rest.all (fun c => c.kind != .not_ || c.text == "not")
   | [] => false
 
 /-- What the covered fragment `Q` must guarantee of binary nodes. -/
@@ -128,23 +134,195 @@ theorem binChildStep (e : Env) (r : Rec) (hr : RecOK r Q) (ctx : Ctx) (hnm : NM 
         rw [show citemS (.body d) = specAll c from hd.2] at this
         exact Post.pure ⟨this, by simp⟩
 
+/-- The invariant while a `not` may be pending. -/
+def BInv (acc : CS × Bool × Bool) (sp : Streams) : Prop :=
+  ∃ sp0, CInvS { acc.1 with opState := false } acc.2.1 sp0 ∧ sp = sp0.app (if acc.1.opState then tagS .tok "not" else {})
+
+theorem BInv.ofC {acc : CS × Bool × Bool} {sp : Streams} (h : CInvS acc.1 acc.2.1 sp) : BInv acc sp := by
+  refine ⟨sp, ⟨h.good, h.eq, h.head, h.att, rfl⟩, ?_⟩
+  rw [h.st]; simp
+
+theorem BInv.toC {acc : CS × Bool × Bool} {sp : Streams} (h : BInv acc sp) (hp : acc.1.opState = false) : CInvS acc.1 acc.2.1 sp := by
+  obtain ⟨sp0, h0, he⟩ := h
+  rw [hp] at he
+  simp only [Bool.false_eq_true, ↓reduceIte, Streams.app_empty] at he
+  rw [he]
+  exact ⟨h0.good, h0.eq, h0.head, h0.att, hp⟩
+
+theorem app_comm_tok_cmt (A : Streams) (s t : String) :
+    (A.app (tagS .tok s)).app (commentS t) = (A.app (commentS t)).app (tagS .tok s) := by
+  apply Streams.ext' <;> simp [Streams.app, tagS, Pretty.charsOf, commentS]
+
+theorem tagS_not_in : tagS .syn "not in" = (tagS .tok "not").app (tagS .tok "in") := by
+  apply Streams.ext' <;> simp [Streams.app, tagS, Pretty.charsOf] <;> decide
+
+/-- The `not` of `not in`: remembered. -/
+theorem binNotStep (e : Env) (r : Rec) (ctx : Ctx) (acc : CS × Bool × Bool) (sp : Streams) (h : CInvS acc.1 acc.2.1 sp)
+    (c : ANode) (hlex : ANode.tokensAreLeaves c = true) (hk : c.kind = .not_) (ht : c.text = "not") :
+    Post (CS.childStepM e ctx (binOpConv e) (exprOpt r) acc c)
+      (fun r' => BInv r' (sp.app (specAll c)) ∧ r'.1.opState = true ∧ r'.2.2 = acc.2.2) := by
+  obtain ⟨cs, ca, so⟩ := acc
+  simp only at h
+  have hspec : specAll c = tagS .tok "not" := by
+    obtain ⟨t, a, hc⟩ := leaf_of_token hlex (by rw [hk]; rfl)
+    have : t = "not" := by rw [hc] at ht; exact ht
+    rw [hc, hk, specAll_plain_leaf .not_ t a rfl, this]
+  unfold CS.childStepM
+  simp only
+  unfold binOpConv
+  have hk' : (c.kind == Kind.not_) = true := by rw [hk]; rfl
+  have h1 : isCommentKind c.kind = false := by rw [hk]; rfl
+  have h2 : (c.kind == Kind.space) = false := by rw [hk]; rfl
+  have hx : isExpr c = false := by unfold isExpr; rw [hk]; rfl
+  simp only [hk', ↓reduceIte, pure_bind, h1, Bool.false_eq_true, h2]
+  have hres : BInv ({ cs with opState := true }, ca, so) (sp.app (specAll c)) :=
+    ⟨sp, ⟨h.good, h.eq, h.head, h.att, rfl⟩, by rw [hspec]; rfl⟩
+  split
+  · unfold exprOpt
+    simp only [hx, Bool.false_eq_true, ↓reduceIte, pure_bind]
+    exact Post.pure ⟨hres, rfl, rfl⟩
+  · exact Post.pure ⟨hres, rfl, rfl⟩
+
+/-- White space or a comment between `not` and `in`. -/
+theorem binPendStep (e : Env) (r : Rec) (ctx : Ctx) (acc : CS × Bool × Bool) (sp : Streams) (h : BInv acc sp)
+    (hp : acc.1.opState = true) (c : ANode) (hlex : ANode.tokensAreLeaves c = true)
+    (hk : (isCommentKind c.kind || c.kind == .space) = true) (hni : (c.kind == .in_) = false) :
+    Post (CS.childStepM e ctx (binOpConv e) (exprOpt r) acc c)
+      (fun r' => BInv r' (sp.app (specAll c)) ∧ r'.1.opState = true ∧ r'.2.2 = acc.2.2) := by
+  obtain ⟨cs, ca, so⟩ := acc
+  obtain ⟨sp0, h0, he⟩ := h
+  simp only at h0 he hp
+  rw [hp] at he
+  simp only [↓reduceIte] at he
+  have hnn : (c.kind == Kind.not_) = false := by
+    simp only [Bool.or_eq_true, beq_iff_eq] at hk
+    rcases hk with hk | hk
+    · cases hkk : c.kind <;> simp_all [isCommentKind]
+    · rw [hk]; rfl
+  have hnop : binOpOfKind c.kind = none := by
+    simp only [Bool.or_eq_true, beq_iff_eq] at hk
+    rcases hk with hk | hk
+    · exact (comment_not_op _ hk).1
+    · rw [hk]; rfl
+  unfold CS.childStepM
+  simp only
+  rw [hp]
+  unfold binOpConv
+  simp only [hnn, Bool.false_eq_true, ↓reduceIte, hni, Bool.false_and, hnop, pure_bind]
+  split
+  · rename_i hck
+    refine Post.bind (commentOK e c hck) (fun d hd => ?_)
+    rw [specAll_comment_node c hlex hck, he, app_comm_tok_cmt]
+    cases ca with
+    | true =>
+      have := h0.push (.attached d) hd.1 (fun hemp => absurd hemp (h0.att rfl))
+        { cs with opState := false, items := cs.items ++ [.attached d], hasComment := true } rfl rfl true
+      rw [show citemS (.attached d) = commentS c.text from hd.2] at this
+      exact Post.pure ⟨⟨_, this, rfl⟩, rfl, rfl⟩
+    | false =>
+      have := h0.push (.comment d) hd.1 (fun _ d' hd' => by cases hd')
+        { cs with opState := false, items := cs.items ++ [.comment d], hasComment := true } rfl rfl false
+      rw [show citemS (.comment d) = commentS c.text from hd.2] at this
+      exact Post.pure ⟨⟨_, this, rfl⟩, rfl, rfl⟩
+  · rename_i hck
+    have hsp : c.kind = .space := by
+      simp only [Bool.or_eq_true, beq_iff_eq] at hk
+      rcases hk with hk | hk
+      · exact absurd hk hck
+      · exact hk
+    have hsb : (c.kind == Kind.space) = true := by rw [hsp]; rfl
+    simp only [hsb, ↓reduceIte]
+    rw [specAll_space c hlex hsp, Streams.app_empty, he]
+    split
+    · split
+      · have := h0.push .linebreak rfl (fun _ d' hd' => by cases hd')
+          { cs with opState := false, items := cs.items ++ [.linebreak] } rfl rfl false
+        exact Post.pure ⟨⟨_, by simpa [citemS] using this, rfl⟩, rfl, rfl⟩
+      · exact Post.pure ⟨⟨_, ⟨h0.good, h0.eq, h0.head, (fun hf => by cases hf), rfl⟩, rfl⟩, rfl, rfl⟩
+    · exact Post.pure ⟨⟨_, ⟨h0.good, h0.eq, h0.head, h0.att, rfl⟩, rfl⟩, rfl, rfl⟩
+
+/-- The `in` of `not in`: the operator is printed. -/
+theorem binInStep (e : Env) (r : Rec) (ctx : Ctx) (acc : CS × Bool × Bool) (sp : Streams) (h : BInv acc sp)
+    (hp : acc.1.opState = true) (c : ANode) (hlex : ANode.tokensAreLeaves c = true) (hk : c.kind = .in_) :
+    Post (CS.childStepM e ctx (binOpConv e) (exprOpt r) acc c)
+      (fun r' => CInvS r'.1 r'.2.1 (sp.app (specAll c)) ∧ r'.2.2 = true) := by
+  obtain ⟨cs, ca, so⟩ := acc
+  obtain ⟨sp0, h0, he⟩ := h
+  simp only at h0 he hp
+  rw [hp] at he
+  simp only [↓reduceIte] at he
+  unfold CS.childStepM
+  simp only
+  rw [hp]
+  unfold binOpConv
+  have hnn : (c.kind == Kind.not_) = false := by rw [hk]; rfl
+  have hin : (c.kind == Kind.in_) = true := by rw [hk]; rfl
+  simp only [hnn, Bool.false_eq_true, ↓reduceIte, hin, Bool.and_self]
+  split
+  · rename_i ht
+    have ht' : c.text = "in" := by simpa using ht
+    simp only [pure_bind]
+    have hspec : specAll c = tagS .tok "in" := by
+      obtain ⟨t, a, hc⟩ := leaf_of_token hlex (by rw [hk]; rfl)
+      have : t = "in" := by rw [hc] at ht'; exact ht'
+      rw [hc, hk, specAll_plain_leaf .in_ t a rfl, this]
+    have hop : Carries (e.syn "not in") ((tagS .tok "not").app (tagS .tok "in")) := by
+      rw [← tagS_not_in]; exact Carries.mkText e.wd .syn "not in"
+    have := h0.push (.op (e.syn "not in")) hop.1 (fun _ d hd => by cases hd)
+      { cs with opState := false, items := cs.items ++ [.op (e.syn "not in")] } rfl rfl ca
+    rw [show citemS (.op (e.syn "not in")) = (tagS .tok "not").app (tagS .tok "in") from hop.2] at this
+    refine Post.pure ⟨?_, rfl⟩
+    rw [he, hspec, Streams.app_assoc]
+    exact this
+  · exact Post.bind (Q := fun _ => False) (Post.rejected _) (fun _ h => False.elim h)
+
 theorem binRest_fold (e : Env) (r : Rec) (hr : RecOK r Q) (ctx : Ctx) (hnm : NM ctx) (rest : List ANode) :
-    ∀ (acc : CS × Bool × Bool) (sp : Streams), CInvS acc.1 acc.2.1 sp → binRestOK acc.2.2 rest = true →
+    ∀ (acc : CS × Bool × Bool) (sp : Streams), BInv acc sp → binRestOK acc.2.2 acc.1.opState rest = true →
       ANode.tokensAreLeavesL rest = true → (∀ c ∈ rest, Q c) →
+      (∀ c ∈ rest, c.kind = .not_ → c.text = "not") →
       Post (rest.foldlM (CS.childStepM e ctx (binOpConv e) (exprOpt r)) acc)
         (fun r' => CInvS r'.1 r'.2.1 (sp.app (specAllL rest))) := by
   induction rest with
-  | nil => intro acc sp h _ _ _; exact Post.pure (by simpa using h)
+  | nil =>
+    intro acc sp h hok _ _ _
+    have hp : acc.1.opState = false := by simpa [binRestOK] using hok
+    exact Post.pure (by simpa using h.toC hp)
   | cons c rest ih =>
-    intro acc sp h hok hlex hq
-    simp only [binRestOK, Bool.and_eq_true] at hok
+    intro acc sp h hok hlex hq hnot
     simp only [ANode.tokensAreLeavesL, Bool.and_eq_true] at hlex
-    rw [List.foldlM_cons]
-    refine Post.bind (binChildStep e r hr ctx hnm acc sp h c hlex.1 (hq c (by simp)) hok.1) ?_
-    rintro acc' ⟨h', hs'⟩
-    have := ih acc' _ h' (by rw [hs']; exact hok.2) hlex.2 (fun x hx => hq x (by simp [hx]))
-    rw [specAllL_cons, ← Streams.app_assoc]
-    exact this
+    rw [List.foldlM_cons, specAllL_cons, ← Streams.app_assoc]
+    have hq' : ∀ x ∈ rest, Q x := fun x hx => hq x (by simp [hx])
+    have hnot' : ∀ x ∈ rest, x.kind = .not_ → x.text = "not" := fun x hx => hnot x (by simp [hx])
+    cases hp : acc.1.opState with
+    | false =>
+      rw [hp] at hok
+      simp only [binRestOK] at hok
+      have hC := h.toC hp
+      by_cases hkn : c.kind = .not_
+      · have hkb : (c.kind == Kind.not_) = true := by rw [hkn]; rfl
+        simp only [hkb, ↓reduceIte] at hok
+        refine Post.bind (binNotStep e r ctx acc sp hC c hlex.1 hkn (hnot c (by simp) hkn)) ?_
+        rintro acc' ⟨h', hs1, hs2⟩
+        exact ih acc' _ h' (by rw [hs1, hs2]; exact hok) hlex.2 hq' hnot'
+      · have hkb : (c.kind == Kind.not_) = false := by simpa using hkn
+        simp only [hkb, Bool.false_eq_true, ↓reduceIte, Bool.and_eq_true] at hok
+        refine Post.bind (binChildStep e r hr ctx hnm acc sp hC c hlex.1 (hq c (by simp)) hok.1) ?_
+        rintro acc' ⟨h', hs'⟩
+        exact ih acc' _ (BInv.ofC h') (by rw [hs', h'.st]; exact hok.2) hlex.2 hq' hnot'
+    | true =>
+      rw [hp] at hok
+      simp only [binRestOK] at hok
+      by_cases hki : c.kind = .in_
+      · have hkb : (c.kind == Kind.in_) = true := by rw [hki]; rfl
+        simp only [hkb, ↓reduceIte] at hok
+        refine Post.bind (binInStep e r ctx acc sp h hp c hlex.1 hki) ?_
+        rintro acc' ⟨h', hs'⟩
+        exact ih acc' _ (BInv.ofC h') (by rw [hs', h'.st]; exact hok) hlex.2 hq' hnot'
+      · have hkb : (c.kind == Kind.in_) = false := by simpa using hki
+        simp only [hkb, Bool.false_eq_true, ↓reduceIte, Bool.and_eq_true] at hok
+        refine Post.bind (binPendStep e r ctx acc sp h hp c hlex.1 hok.1 hkb) ?_
+        rintro acc' ⟨h', hs1, hs2⟩
+        exact ih acc' _ h' (by rw [hs1, hs2]; exact hok.2) hlex.2 hq' hnot'
 
 /-- The left operand as a child of its node: skipped (it was laid out as the inner chain). -/
 theorem binLhsStep (e : Env) (r : Rec) (ctx : Ctx) (cs : CS) (ca : Bool) (sp : Streams) (h : CInvS cs ca sp)
@@ -220,7 +398,7 @@ theorem binChain_carries (e : Env) (r : Rec) (hr : RecOK r Q) (hQ : BinQ Q) (ctx
         | nil => simp [binChildrenOK] at hch
         | cons lhs rest =>
           simp only [binChildrenOK, Bool.and_eq_true, Bool.not_eq_true'] at hch
-          obtain ⟨⟨hxl, hdl⟩, hrest⟩ := hch
+          obtain ⟨⟨⟨hxl, hdl⟩, hrest⟩, hnotT⟩ := hch
           have hfind : firstWhere (.inner .binary (lhs :: rest) a) isExpr = some lhs := by
             simp [firstWhere, ANode.children, hxl]
           rw [hfind]
@@ -244,8 +422,11 @@ theorem binChain_carries (e : Env) (r : Rec) (hr : RecOK r Q) (hQ : BinQ Q) (ctx
           simp only [bind_assoc]
           refine Post.bind (binLhsStep e r ctx _ ca1 _ h1' lhs hlexL.1 hxl) ?_
           rintro acc2 ⟨h2, hs2⟩
-          refine Post.bind (binRest_fold e r hr ctx hnm rest acc2 _ h2 (by rw [hs2]; exact hrest) hlexL.2
-            (fun c hc => hqc c (by simp [hc]))) ?_
+          refine Post.bind (binRest_fold e r hr ctx hnm rest acc2 _ (BInv.ofC h2) (by rw [hs2, h2.st]; exact hrest) hlexL.2
+            (fun c hc => hqc c (by simp [hc]))
+            (fun c hc hk => by
+              have := List.all_eq_true.mp hnotT c hc
+              simpa [hk] using this)) ?_
           intro r3 h3
           exact Post.pure h3
     · rw [if_neg hcond]
